@@ -488,7 +488,8 @@ func genExprs(maxOperands int, emit emitFn) {
 }
 
 // defs: parameter forms x spacing x return annotation, followed by calls.
-func genDefs(maxParams int, emit emitFn) {
+// genDefs: forms2 limits the parameter forms used when there are two parameters (0 = all).
+func genDefs(maxParams, forms2 int, emit emitFn) {
 	forms := []struct{ name, text string }{
 		{"plain", "A"}, {"default", "A=1"}, {"type", "A:int"}, {"type-default", "A:int=1"}, {"union", "A:int|str"},
 		{"union-default", "A:str|int=1"}, {"type-alias", "A:int&Z"}, {"union-aliases-default", "A:int|str&Z&Y=1"},
@@ -511,12 +512,16 @@ func genDefs(maxParams int, emit emitFn) {
 		return f
 	}
 	for n := 1; n <= maxParams; n++ {
-		for idx := 0; idx < ipow(len(forms), n); idx++ {
+		nf := len(forms)
+		if n == 2 && forms2 > 0 {
+			nf = forms2
+		}
+		for idx := 0; idx < ipow(nf, n); idx++ {
 			x := idx
 			sel := make([]int, n)
 			for i := n - 1; i >= 0; i-- {
-				sel[i] = x % len(forms)
-				x /= len(forms)
+				sel[i] = x % nf
+				x /= nf
 			}
 			for _, ret := range rets {
 				for sp := 0; sp < 2; sp++ {
@@ -850,7 +855,7 @@ func main() {
 			genStrings(append(append([]string{}, stringAlphaBase...), stringAlphaExtra...), 1, 2, len(stringAlphaBase), emit)
 			genConcat(2, emit)
 			genExprs(3, emit)
-			genDefs(1, emit)
+			genDefs(2, 4, emit)
 			genStmts(false, emit)
 			genRules(2, false, emit)
 			genSubincludes(2, emit)
@@ -861,7 +866,7 @@ func main() {
 			genStrings(append(append([]string{}, stringAlphaBase...), stringAlphaExtra...), 1, 3, len(stringAlphaBase), emit)
 			genConcat(3, emit)
 			genExprs(4, emit)
-			genDefs(2, emit)
+			genDefs(2, 0, emit)
 			genStmts(true, emit)
 			genRules(3, true, emit)
 			genSubincludes(3, emit)
@@ -1204,7 +1209,23 @@ func classesOf(e *evaluator, p prog, res result) (classes []string, witness []pr
 	}
 	if p.Fam == "def" && strings.Contains(p.Feat, "keyword-before-positional-call") {
 		// asp accepts f(b=3, 1) (binding 1 by argument position); the reorderarguments rewrite moves it to the front
-		return one("fmt:reorderarguments:positional-argument-after-keyword-argument-moved:" + res.Effect)
+		cur := p // drop the calls that do not matter
+		for changed := true; changed; {
+			changed = false
+			lines := strings.SplitAfter(cur.Code, "\n")
+			for i, l := range lines {
+				if !strings.HasPrefix(l, "r") {
+					continue
+				}
+				cand := cur
+				cand.Code = strings.Join(append(append([]string{}, lines[:i]...), lines[i+1:]...), "")
+				if r2 := e.check(cand); r2.Status == "violation" && r2.Effect == res.Effect {
+					cur, changed = cand, true
+					break
+				}
+			}
+		}
+		return []string{"fmt:reorderarguments:positional-argument-after-keyword-argument-moved:" + res.Effect}, []prog{cur}
 	}
 	if p.Fam == "subinclude" {
 		return one("subinclude-sequence:simplify-merge:" + res.Effect)
